@@ -1,6 +1,7 @@
 (* C02 — parsing depends only on the bytes; a bad frame costs exactly one error. *)
 From Coq Require Import List Arith.
 From EN Require Import Lib.Bytes Frame.Framer Frame.ReadUntil Frame.BufReadUntil Stream.Consumer Stream.SpecDecode
+  Frame.JsonRaw Frame.JsonGrammar Proofs.C07_extra Proofs.C01_generic Proofs.C01_json Proofs.C02_extra
   Proofs.C02_proofs Proofs.Fixed_proofs Proofs.BufFixed_proofs.
 Import ListNotations.
 
@@ -43,6 +44,63 @@ Proof.
   cbn [app] in *. rewrite H1 in Hd1. rewrite H2 in Hd2. exists c1, c2. split; assumption.
 Qed.
 Print Assumptions fixed_size_paths_agree.
+
+(* ======================= raw JSON (JSONSerializer(use_lines=False)) =======================
+   Vocabulary (Proofs/C02_extra.v): jframe = any byte string the scanner closes (non-empty, not starting with whitespace)
+   or atom ++ newline: every grammar document, every balanced-but-invalid text such as [1,,], stray closing brackets;
+   jframe_ok limit d := jframe d /\ length d <= limit; jev dec d = RPkt p when dec d = Some p, RErr EDecode otherwise. *)
+
+(* Streams of frames within the limit (valid or undecodable): for every chunking the events are frame-by-frame decoding. *)
+Theorem json_events_chunk_independent :
+  forall (P : Type) (limit : nat) (dec : decoder P) (docs chunks : list bytes) (fuel : nat),
+    Forall (fun ch => ch <> []) chunks -> Forall (jframe_ok limit) docs -> concat chunks = concat docs ->
+    length (concat chunks) < fuel ->
+    exists c', cdeliver (json_framer limit dec) fuel (cinit _) chunks = (c', map (jev dec) docs) /\ cbuf c' = [] /\ ccons c' = None.
+Proof. intros P limit dec docs chunks fuel. exact (json_events_chunk_independent_l limit dec docs chunks fuel). Qed.
+Print Assumptions json_events_chunk_independent.
+
+Theorem json_two_chunkings_agree :
+  forall (P : Type) (limit : nat) (dec : decoder P) (docs chunks1 chunks2 : list bytes) (fuel : nat),
+    Forall (jframe_ok limit) docs ->
+    Forall (fun ch => ch <> []) chunks1 -> concat chunks1 = concat docs ->
+    Forall (fun ch => ch <> []) chunks2 -> concat chunks2 = concat docs -> length (concat docs) < fuel ->
+    snd (cdeliver (json_framer limit dec) fuel (cinit _) chunks1) = snd (cdeliver (json_framer limit dec) fuel (cinit _) chunks2).
+Proof. intros P limit dec docs c1 c2 fuel. exact (json_two_chunkings_agree_l limit dec docs c1 c2 fuel). Qed.
+Print Assumptions json_two_chunkings_agree.
+
+(* An undecodable frame costs exactly one error; frames before and after are intact. *)
+Theorem json_bad_document_costs_one :
+  forall (P : Type) (limit : nat) (dec : decoder P) (ds1 ds2 : list bytes) (bad : bytes) (chunks : list bytes) (fuel : nat),
+    dec bad = None -> Forall (jframe_ok limit) (ds1 ++ bad :: ds2) ->
+    Forall (fun ch => ch <> []) chunks -> concat chunks = concat (ds1 ++ bad :: ds2) -> length (concat chunks) < fuel ->
+    exists c', cdeliver (json_framer limit dec) fuel (cinit _) chunks
+               = (c', map (jev dec) ds1 ++ RErr EDecode :: map (jev dec) ds2) /\ cbuf c' = [] /\ ccons c' = None.
+Proof. intros P limit dec ds1 ds2 bad chunks fuel. exact (json_bad_document_costs_one_l limit dec ds1 ds2 bad chunks fuel). Qed.
+Print Assumptions json_bad_document_costs_one.
+
+(* Resynchronisation (a): an oversized frame closed inside the data of one read: the remainder is exactly what follows,
+   later frames are intact. *)
+Theorem json_overrun_resync :
+  forall (P : Type) (limit : nat) (dec : decoder P) (big x : bytes) (docs cs : list bytes) (fuel : nat),
+    closes big -> limit < length big -> Forall (jframe_ok limit) docs -> Forall (fun ch => ch <> []) cs ->
+    x ++ concat cs = concat docs -> length (x ++ concat cs) < fuel ->
+    exists c', cdeliver (json_framer limit dec) fuel (cinit _) ((big ++ x) :: cs) = (c', RErr ELimit :: map (jev dec) docs) /\
+               cbuf c' = [] /\ ccons c' = None.
+Proof. intros P limit dec big x docs cs fuel. exact (json_overrun_resync_l limit dec big x docs cs fuel). Qed.
+Print Assumptions json_overrun_resync.
+
+(* Resynchronisation (b), what IS true for an unterminated oversized document: the read that takes the data beyond the
+   limit raises, the remainder is EMPTY, and the parser restarts on the next read wherever it falls. (So later frames are
+   intact exactly when the later reads are a sequence of frames; raw JSON has no terminator to look for: observation
+   json_unterminated_overrun_is_chunk_dependent_observed in Proofs/C02_extra.v, replayed on /repo.) *)
+Theorem json_overrun_restart :
+  forall (P : Type) (limit : nat) (dec : decoder P) (pre cs : list bytes) (fuel : nat) (cj : jcount),
+    pre <> [] -> Forall (fun ch => ch <> []) pre -> jscan [] (concat pre) jcount0 = JSMore cj ->
+    limit < length (concat pre) -> length (concat (removelast pre)) <= limit ->
+    cdeliver (json_framer limit dec) fuel (cinit _) (pre ++ cs)
+    = (let '(c', evs) := cdeliver (json_framer limit dec) fuel (cinit _) cs in (c', RErr ELimit :: evs)).
+Proof. intros P limit dec pre cs fuel cj. exact (json_overrun_restart_l limit dec pre cs fuel cj). Qed.
+Print Assumptions json_overrun_restart.
 
 (* In the specification a malformed (undecodable) frame between whole frames f1 and any continuation f2 yields exactly
    one parse error, consumes exactly that frame, and every later frame is decoded as if the bad frame were absent.
